@@ -74,7 +74,7 @@ def gen_script(rng, kind, n_episodes=None, enabled=None, final_packets=None):
                 e["end"] = {"k": "eof", "after": 13, "d": rng.choice([0.0, 1.0, 31.0])}
         elif f == "write_fail":
             # waveshare writes its configuration packet first (index 0)
-            e["w"] = {"fail_at": rng.choice([0, 1, 1, 2, 3])}
+            e["w"] = {"fail_at": rng.choice([0, 1, 1, 2, 3]), "fail_exc": rng.choice(["reset", "etimedout", "epipe"])}
             sends.append(len(script))
         if rng.random() < 0.3:
             e.setdefault("w", {})["pause"] = {str(rng.randrange(0, 4)): rng.choice([0.001, 0.05, 1.0])}
